@@ -804,3 +804,17 @@ package schema
 //@ func UnitsDefinition.getSortedMultipliersCache(u) -> res
 //@   loop 1 invariant multipliers == nil || fresh(multipliers)
 //@ func UnitsDefinition.updateReCache(u)
+
+// ---------------------------------------------------------------------------------------------
+// C04: totality. Well-formedness assumed for schema values (established by the constructors), and
+// interface-level facts that every implementation must prove.
+// ---------------------------------------------------------------------------------------------
+
+//@ invariant ObjectSchema(o): o.fieldCache != nil ==> o.defaultValue != nil && o.defaultValueType != nil
+//@ invariant UnitsDefinition(u): u.BaseUnitValue != nil
+//@ nonnil *UnitDefinition
+//@ interface Type.ReflectedType(this) -> res
+//@   ensures res != nil
+//@   assigns nothing
+//@ interface Object.GetDefaults(this) -> res
+//@   names res != nil
